@@ -18,7 +18,9 @@ theorem Preserved.of_iff {I J : World → Prop} (h : ∀ w, I w ↔ J w) (hI : P
   same hs hj := (h _).1 (hI.same hs ((h _).2 hj))
   tick he hj := (h _).1 (hI.tick he ((h _).2 hj))
   exec w p c hv hj := (h _).1 (hI.exec w p c hv ((h _).2 hj))
-  resume w p f sig hv hj := (h _).1 (hI.resume w p f sig hv ((h _).2 hj))
+  resume w p f sig hv hfr hj := by
+    obtain ⟨w0, h0, hb, e⟩ := hfr
+    exact (h _).1 (hI.resume w p f sig hv ⟨w0, (h _).2 h0, hb, e⟩ ((h _).2 hj))
   finish w p v st hj := (h _).1 (hI.finish w p v st ((h _).2 hj))
   clear w p f hf hb hj := (h _).1 (hI.clear w p f hf hb ((h _).2 hj))
 
